@@ -69,11 +69,13 @@ type RunConfig struct {
 	Cross      []string // additional solvers for cross-checking
 	QueryMs    int
 	SplitMs    int // first-attempt timeout before a hard query is split into cubes
+	FeasMs     int // timeout of in-execution feasibility queries (ms)
+	SmallInts  int // >0: Int terms are sent to the solver as bit-vectors of this width (all must be bounded)
 	Workers    int
 	ModulePath string
 	InitPkgs   []string // module packages whose init must run (dependency order)
 	Fixed      map[string]string
-	FixedKeys  []string // concrete replay: slot identity chosen at each scheduler step
+	SlotIDs    map[string]int // concrete replay: slot numbering of the run being replayed
 	Trace      bool
 	LogDir     string
 	KnownIDs   map[string]bool // known-finding ids whose predicates are active
@@ -154,6 +156,7 @@ func Run(l *Loaded, cfg RunConfig) (res *RunResult) {
 		res.Inconcl = append(res.Inconcl, "cannot start solver: "+err.Error())
 		return res
 	}
+	solver.IntW = cfg.SmallInts
 	defer solver.Close()
 	ex := NewExec(l.Prog, tb, solver, cfg.BV)
 	res.ex = ex
@@ -170,8 +173,17 @@ func Run(l *Loaded, cfg RunConfig) (res *RunResult) {
 		ex.SetParam(k, v)
 	}
 	if cfg.Sched {
+		ex.FeasTimeout = 2500
+		if cfg.FeasMs > 0 {
+			ex.FeasTimeout = cfg.FeasMs
+		}
 		ex.EnableSched(cfg.Races)
-		ex.sched.FixedKeys = cfg.FixedKeys
+		if cfg.SlotIDs != nil {
+			ex.sched.SlotIDs = map[string]int{}
+			for k, v := range cfg.SlotIDs {
+				ex.sched.SlotIDs[k] = v
+			}
+		}
 	}
 	pkg := l.Pkgs[cfg.PkgPath]
 	if pkg == nil {
@@ -225,7 +237,7 @@ func Run(l *Loaded, cfg RunConfig) (res *RunResult) {
 	res.Observes = ex.Observes
 	if ex.sched != nil {
 		res.Threads = len(ex.sched.threads)
-		res.SchedSteps = ex.sched.step
+		res.SchedSteps = ex.sched.nWorlds
 		res.Segments = ex.sched.segments
 	}
 	if len(solver.Errors) > 0 {
@@ -449,6 +461,7 @@ func (ex *Exec) discharge(res *RunResult, cfg RunConfig) {
 						note("cannot start " + k + ": " + err.Error())
 						return false
 					}
+					s.IntW = cfg.SmallInts
 					solvers = append(solvers, s)
 				}
 				return true
@@ -562,16 +575,26 @@ func (ex *Exec) discharge(res *RunResult, cfg RunConfig) {
 	wg.Wait()
 	for label, pos := range reachTried {
 		if !reach[label] {
-			res.Inconcl = append(res.Inconcl, fmt.Sprintf("vacuous assertion %q at %s (no instance is reachable)", label, pos))
+			res.Notes = append(res.Notes, fmt.Sprintf("assertion %q at %s is not reachable in this run (holds vacuously here)", label, pos))
 		}
 	}
 	// classify
+	coverOK := map[string]bool{}
+	defer func() {
+		for l, ok := range coverOK {
+			if !ok {
+				res.Inconcl = append(res.Inconcl, fmt.Sprintf("cover %q not reachable in any instance: harness vacuous", l))
+			}
+		}
+	}()
 	for _, o := range obs {
 		switch o.Kind {
 		case "cover":
 			res.Covers++
-			if o.Result != Sat {
-				res.Inconcl = append(res.Inconcl, fmt.Sprintf("cover %q not reachable (%s): harness vacuous", o.Label, o.Result))
+			if o.Result == Sat {
+				coverOK[o.Label] = true
+			} else if _, ok := coverOK[o.Label]; !ok {
+				coverOK[o.Label] = false
 			}
 		case "overflow", "unwind", "stepbound":
 			if o.Result != Unsat {
